@@ -191,6 +191,19 @@ def run_case(case, ctx):
         if D.__fields__ and D.__fields__[0]._name and not D.__fields__[0].bits and isinstance(getattr(inter, D.__fields__[0]._name, None), int):
             lib(lambda: D(**{D.__fields__[0]._name: 1}))
         libside.touch_mutable(inter)
+        # ... and used for everything an instance is used for: whatever this leaves behind must not survive the next commit
+        def prime():
+            buf = ref["data"] + bytes(64)
+            x = D(io.BytesIO(buf))
+            x.dumps()
+            D().dumps()
+            _ = (x == D(buf), bool(x), len(D) if not D.dynamic else None, repr(x))
+            try:
+                hash(x)
+            except TypeError:
+                pass
+
+        lib(prime)
         kinds = (D.dynamic, any(f.bits for f in D.__fields__), D.alignment, any(f.name is None for f in D.__fields__))
         if kinds_before is not None and kinds != kinds_before:
             kind_change = True
@@ -239,8 +252,23 @@ def run_case(case, ctx):
                 raise Violation("dumps-differs", f"{name}: dumps {d1!r} vs text-struct {d2!r}: {desc({'construction': name})}")
             if lib(bool, r) != lib(bool, br):
                 raise Violation("instance-behaviour-differs", f"{name}: bool differs: {desc({'construction': name})}")
+            hr, hb = lib(hash, r), lib(hash, br)
+            if name != "text-typedef" and (isinstance(hr, Err) != isinstance(hb, Err) or (not isinstance(hr, Err) and hr != hb and not refsem.has_nan(libside.plain(r)))):
+                # (the typedef form lives in another cstruct object: its enum members hash by their own class)
+                raise Violation("instance-behaviour-differs", f"{name}: hash {hr!r} vs text-struct {hb!r} for the same parsed values: {desc({'construction': name})}")
             if lib(lambda: r == T(io.BytesIO(inp))) is not True and not refsem.has_nan(libside.plain(r)):
                 raise Violation("instance-behaviour-differs", f"{name}: two parses of the same bytes are not equal: {desc({'construction': name})}")
+        # the generated __eq__ / __bool__ look at EVERY field, the last one included
+        lastf = T.__fields__[-1] if T.__fields__ else None
+        if lastf is not None and not lastf.bits:
+            zero = lib(T)
+            lv = None if isinstance(zero, Err) else getattr(zero, lastf._name, None)
+            if isinstance(lv, int) and not isinstance(lv, bool) and int(lv) == 0 and not hasattr(type(lv), "__members__"):
+                one = T()
+                setattr(one, lastf._name, 1)
+                if lib(bool, one) is not True or lib(lambda: one == T()) is not False:
+                    raise Violation("instance-behaviour-differs", f"{name}: an instance whose only non-zero field is the last one ({lastf._name}): bool {lib(bool, one)!r}, == default {lib(lambda: one == T())!r}: {desc({'construction': name})}")
+                ctx.count("last-field:bool-and-eq")
         # defaults are per instance: changing one default instance's arrays / nested members in place leaves the next one alone
         touched = lib(lambda: libside.touch_mutable(T()))
         if isinstance(touched, Err):
@@ -250,6 +278,28 @@ def run_case(case, ctx):
         dflt = lib(lambda: libside.cplain(T()))
         if isinstance(dflt, Err) != isinstance(base_default, Err) or (not isinstance(dflt, Err) and dflt != base_default):
             raise Violation("instance-behaviour-differs", f"{name}: default instance {dflt!r} vs text-struct {base_default!r}: {desc({'construction': name})}")
+    if selfref and "next" in A.fields and not A.dynamic and not align:
+        # rec1(next -> rec2) + rec2: the pointer dereferences to an instance of the SAME class as the structure holding it
+        size = len(A)
+        noff = A.fields["next"].offset
+        psz = len(A.fields["next"].type)
+        bo = "little" if cfg["endian"] == "<" else "big"
+        if noff is not None and size + 1 < (1 << (8 * psz)):
+            rec = bytearray(data[:size] + bytes(max(0, size - len(data))))
+            rec2 = bytes(rec)
+            rec[noff : noff + psz] = (size + 1).to_bytes(psz, bo)
+            img = bytes(rec) + b"\xaa" + rec2
+            outs = []
+            for name, T in builds.items():
+                o_ = lib(T, io.BytesIO(img))
+                tgt = o_ if isinstance(o_, Err) else lib(o_.next.dereference)
+                direct = lib(T, io.BytesIO(img[size + 1 :]))
+                if isinstance(tgt, Err) or isinstance(direct, Err) or type(tgt) is not T or libside.cplain(tgt) != libside.cplain(direct):
+                    raise Violation("self-reference-differs", f"{name}: next.dereference() gives {tgt!r} (type {type(tgt).__name__}), parsing the target bytes directly gives {direct!r} (class {T.__name__}): {desc({'construction': name})}")
+                outs.append(libside.cplain(tgt))
+            if any(o_ != outs[0] for o_ in outs):
+                raise Violation("self-reference-differs", f"dereferenced targets differ between constructions: {outs}: {desc()}")
+            ctx.count("selfref:pointer-followed")
     ctx.count(f"commits:{min(commits, 6)}")
     ctx.count("selfref" if selfref else "plain")
     ctx.count("reader:" + ("compiled" if getattr(A, "__compiled__", False) else "interpreted"))
